@@ -6,6 +6,20 @@ import glob, json, os
 # verdict of the FIRST run of the then-registered check against the change, where it differed from the final one, and what was
 # changed in the machinery afterwards (hand-maintained; the final verdict column is regenerated from seeded/*/meta.json)
 FIRST = {
+    # ---- wave 6
+    "C05-w6m1-atomicbucket-is-empty-is-simplified-to-look-at-t": "exit 2 (the harness named crossbeam's Guard through the file's imports, which the change removed) -> imports spelled out in the harness; reported by c05b_is_empty_states",
+    "C05-w6m2-clear-with-s-reclamation-is-simplified-only-the-": "exit 2 (the harness named DEFERRED_BLOCK_BATCH_SIZE, removed by the change) -> constant no longer used; reported by c05b_reclaim_only_deferred",
+    "C06-w6m1-key-with-extra-labels-is-rewritten-to-clone-self": "exit 0 under C06's check (the change is in key.rs, which C03's check owns: reported there)",
+    "C06-w6m2-in-get-or-create-counter-gauge-histogram-the-rea": "exit 2 (no read-side from_hash in the hashbrown stub) -> stub method + contract assert 'op is handed the storage the shard maps THIS key to'",
+    "C07-w6m1-atomicbucket-clear-with-and-data-with-wait-for-i": "exit 0 under C07's check (the change is in bucket.rs, which C05's check owns: reported there)",
+    "C09-w6m1-payloads-drop-the-end-of-a-drain-flush-cycle-no-": "exit 2 (Vec::drain outside vstd) -> witness confirmation (witness_flush_cycle.rs: a flush dropped early still leaves a fresh writer)",
+    "C10-w6m1-client-send-forwarder-sync-rs-unix-stream-arm-is": "exit 0 (socket I/O was out of scope) -> send.verus.rs: Ok(n) only for the whole payload",
+    "C10-w6m2-state-flush-state-rs-the-three-copies-of-the-tel": "exit 2 (declared rewrite no longer applies: new helper method) -> witness confirmation (witness_flush_timestamps.rs)",
+    "C11-w6m2-in-run-transport-s-per-client-event-branch-the-c": "exit 0 (the per-client arm had no contract) -> arm.verus.rs (lifted): removal only under the licence of a failed write",
+    "C12-w6m1-recency-should-store-is-rewritten-on-top-of-the-": "exit 2 (lost splice point) -> witness confirmation (witness_reregistered.rs)",
+    "C12-w6m2-prometheus-inner-get-recent-metrics-no-longer-ta": "exit 2 (lost splice point) -> witness confirmation (witness_expired_label_sets.rs)",
+    "C15-w6m2-in-inner-render-metrics-exporter-prometheus-src-": "exit 0 under C15's check (render is C08's: reported there, render's distribution-type assert)",
+    "C17-w6m1-metricslayer-on-new-span-no-longer-asks-the-regi": "exit 2 (Attributes::parent outside the template) -> witness confirmation (witness_span_tree.rs)",
     # ---- wave 5
     "C01-w5m1-with-local-recorder-no-longer-holds-a-localrecor": "exit 0 (Kani does not unwind; with_local_recorder's structure was unclaimed) -> scope.verus.rs (closure runs while the guard is alive and armed, R44) + witness_panic_scope.rs",
     "C03-w5m1-in-key-hasher-impl-metrics-src-key-rs-the-branch": "exit 2 (declared rewrite of the sort idiom no longer applies) -> witness confirmation (witness_many_labels.rs: 21+ labels, repeated names, several supply orders)",
